@@ -2,6 +2,7 @@ package vm
 
 import (
 	"fmt"
+	"sync/atomic"
 
 	"github.com/elk-language/elk/value"
 )
@@ -12,14 +13,31 @@ type CallSiteInfo struct {
 	Name          value.Symbol
 	ArgumentCount int
 	Cache         [3]CallCacheEntry
+	Epoch         uint64 // value of the method cache epoch the cache entries were recorded in
 }
 
 type CallCache struct {
 	Entries [3]CallCacheEntry
+	Epoch   uint64 // value of the method cache epoch the cache entries were recorded in
+}
+
+// Incremented every time a method table or an ancestor chain changes at runtime
+// (method, getter, setter, alias definition, mixin inclusion, superclass assignment).
+// Inline method caches recorded in an older epoch are ignored, so a method redefined
+// eg. in the REPL is seen by call sites that have already cached the previous definition.
+var methodCacheEpoch atomic.Uint64
+
+// Discard the content of all inline method caches.
+func InvalidateMethodCaches() {
+	methodCacheEpoch.Add(1)
 }
 
 func LookupMethodInCache(class *value.Class, name value.Symbol, cacheLoc **CallCache) value.Method {
 	cache := *cacheLoc
+	epoch := methodCacheEpoch.Load()
+	if cache.Epoch != epoch {
+		cache = &CallCache{Epoch: epoch}
+	}
 	for i := range len(cache.Entries) {
 		cacheEntry := cache.Entries[i]
 		if cacheEntry.Class == class {
@@ -34,6 +52,7 @@ func LookupMethodInCache(class *value.Class, name value.Symbol, cacheLoc **CallC
 			}
 			*cacheLoc = &CallCache{
 				Entries: newEntries,
+				Epoch:   epoch,
 			}
 			return method
 		}
